@@ -43,3 +43,5 @@ git -C /repo checkout -- .
 git -C /repo status --short | head -3
 # restore evidence written while the patch was applied
 git -C /verif checkout -- evidence 2>/dev/null
+# rebuild the harness from the restored tree so that no binary built from patched sources is left behind
+(cd /verif/harness && CARGO_NET_OFFLINE=true cargo build --release --offline >/dev/null 2>&1)
